@@ -102,6 +102,16 @@ def hermitian (j : Json) : Except String Json := do
                            ("hc", J.ofOp (Model.C02.hcBoson a))])
   | s => .error s!"c02.hermitian: class {s} not modelled"
 
+def hermitianIO (j : Json) : Except String Json := do
+  let n ← J.nat (← J.field j "n")
+  let c ← J.gq (← J.field j "constant")
+  let one ← J.listOf J.gq (← J.field j "one_body")
+  let two ← J.listOf J.gq (← J.field j "two_body")
+  let tol ← tolOf j "tol"
+  .ok (J.obj [("model", Json.bool (Model.C02.isHermitianIO tol n c one two)),
+              ("hc_one", J.ofList J.ofGQ (Model.C02.hcOneBody n one)),
+              ("hc_two", J.ofList J.ofGQ (Model.C02.hcTwoBody n two))])
+
 def handle (op : String) (j : Json) : Option (Except String Json) :=
   match op with
   | "c02.isclose" => some (isclose j)
@@ -110,6 +120,7 @@ def handle (op : String) (j : Json) : Option (Except String Json) :=
   | "c02.pred" => some (pred j)
   | "c02.tensoreq" => some (tensoreq j)
   | "c02.hermitian" => some (hermitian j)
+  | "c02.hermitian_io" => some (hermitianIO j)
   | _ => none
 
 end C02
